@@ -7,7 +7,7 @@ base = json.load(open('/root/.vp/BASELINE.json'))
 stable = set(base['stable_pass'])
 pats = sys.argv[1:] or ['./...']
 env = dict(os.environ, GOFLAGS='-mod=mod', GOPROXY='off')
-p = subprocess.run(['go', 'test', '-json', '-vet=off', '-count=1', '-timeout', '25m'] + pats, cwd='/repo', env=env,
+p = subprocess.run(['go', 'test', '-json', '-vet=off', '-count=1', '-timeout', '25m'] + pats, cwd=os.environ.get('BASELINE_REPO','/repo'), env=env,
                    stdout=subprocess.PIPE, stderr=subprocess.DEVNULL)
 passed, failed, pkgs = set(), set(), set()
 for line in p.stdout.decode(errors='replace').splitlines():
